@@ -148,8 +148,26 @@ var rvParser = rvgen.Parser(refrv.Cfg{XLEN: 64, M: true, A: true})
 
 // BuildCode turns a generated program into the code model.
 func BuildCode(prog *emuchk.Program, entry uint64) (*deps.Code, *elf.Memory, error) {
+	return BuildCodeAt(prog, emuchk.Code, entry)
+}
+
+// HighBases are code addresses in the upper half of the 64-bit address space (and one
+// straddling 2^63); the generated programs are position independent except for their
+// data pointer.
+var HighBases = []uint64{0xffffffff80000000, 1 << 63, 1<<63 - 8, 1<<64 - 0x1000, 0x7ffffffffffff000}
+
+// PickBase returns the usual code address, or in a quarter of the calls a high one.
+func PickBase(r *rand.Rand) uint64 {
+	if r.Intn(4) == 0 {
+		return HighBases[r.Intn(len(HighBases))]
+	}
+	return emuchk.Code
+}
+
+// BuildCodeAt places the program at base.
+func BuildCodeAt(prog *emuchk.Program, base, entry uint64) (*deps.Code, *elf.Memory, error) {
 	code := prog.Bytes()
-	codeMem, err := elf.VerifNewMemory([]model.Addr{emuchk.Code}, [][]byte{code})
+	codeMem, err := elf.VerifNewMemory([]model.Addr{model.Addr(base)}, [][]byte{code})
 	if err != nil {
 		return nil, nil, err
 	}
@@ -165,7 +183,7 @@ func BuildCode(prog *emuchk.Program, entry uint64) (*deps.Code, *elf.Memory, err
 	for i := range data {
 		data[i] = byte(i * 7)
 	}
-	img, err := elf.VerifNewMemory([]model.Addr{emuchk.Code, emuchk.Data}, [][]byte{code, data})
+	img, err := elf.VerifNewMemory([]model.Addr{emuchk.Data, model.Addr(base)}, [][]byte{data, code})
 	return dcode, img, err
 }
 
@@ -193,6 +211,11 @@ func NewUI(dcode *deps.Code, img *elf.Memory) (*consoleui.UI, error) {
 
 // NewSession generates a program with several blocks of different sizes.
 func NewSession(r *rand.Rand, minIns int) (*Session, error) {
+	return NewSessionAt(r, minIns, emuchk.Code)
+}
+
+// NewSessionAt is NewSession with the code placed at base.
+func NewSessionAt(r *rand.Rand, minIns int, base uint64) (*Session, error) {
 	var prog *emuchk.Program
 	for try := 0; ; try++ {
 		prog = emuchk.Generate(r, minIns+r.Intn(40))
@@ -200,7 +223,7 @@ func NewSession(r *rand.Rand, minIns int) (*Session, error) {
 		if r.Intn(2) == 0 {
 			entryIdx = r.Intn(len(prog.Words))
 		}
-		dcode, img, err := BuildCode(prog, emuchk.Code+uint64(4*entryIdx))
+		dcode, img, err := BuildCodeAt(prog, base, base+uint64(4*entryIdx))
 		if err != nil {
 			if try > 20 {
 				return nil, err
